@@ -229,7 +229,14 @@ def _job(args):
         h.run(ctx)
         ctx.flush()
 
+    out["witnesses"] = []
+    every = {"n": 0}
+
     def on_path(p):
+        every["n"] += 1
+        ex.sample_witness = (every["n"] % 40 == 0)      # the next path keeps a witness for native validation
+        if p.get("witness"):
+            out["witnesses"].append({"model": p["witness"], "prefix": p["prefix"]})
         if p["notes"].get("nontrivial"):
             out["nontrivial"] += 1
         if p["ties"]:
@@ -251,6 +258,7 @@ def _job(args):
                                    "obligations": [r[0] + ":" + r[1] for r in p["results"]][:12],
                                    "notes": p["notes"]})
 
+    ex.sample_witness = True
     if want_profile:
         # one profiled run of the first root: which hta functions are executed
         box = {}
@@ -341,7 +349,7 @@ def run_check(hname, tier, jobs=None, budget_s=None):
     from .engine import Stats
     total = Stats()
     agg = {"refuted": [], "raised": [], "unsupported": [], "unknown": [], "samples": [], "nontrivial": 0,
-           "functions": set(), "tie_paths": 0}
+           "functions": set(), "tie_paths": 0, "witnesses": []}
     per_sk = {}
     ctx_mp = mp.get_context("fork")
     pending_jobs = [(i, sk, [()], chunk, deadline, True) for i, sk in enumerate(sks)]
@@ -371,6 +379,9 @@ def run_check(hname, tier, jobs=None, budget_s=None):
                 if len(agg["samples"]) < 6:
                     agg["samples"].extend(out["samples"][:1])
                 agg["nontrivial"] += out["nontrivial"]
+                for w in out.get("witnesses", []):
+                    w["sk"] = out["sk"]
+                    agg["witnesses"].append(w)
                 agg["tie_paths"] += out["tie_paths"]
                 agg["functions"].update(tuple(x) for x in out["functions"])
                 d = per_sk.setdefault(out["sk"], {"paths": 0})
@@ -449,6 +460,45 @@ def run_check(hname, tier, jobs=None, budget_s=None):
                                "native": [f for f in fails if f["label"] == c["label"] or
                                           f["label"].startswith("raised:")][:2]})
 
+    # ---- native validation of witnesses of paths on which every obligation was discharged -----------------
+    # (the dangerous direction: a model that is too lenient).  A witness that violates an obligation natively is a
+    # genuine violation of the property by the real code, found by validation instead of by the solver.
+    nval = getattr(h, "VALIDATE", {"quick": 6, "thorough": 40})[tier]
+    ws = agg["witnesses"]
+    # spread over skeletons: round-robin
+    by_sk = {}
+    for w in ws:
+        by_sk.setdefault(w["sk"], []).append(w)
+    picked = []
+    while len(picked) < nval and any(by_sk.values()):
+        for k in sorted(by_sk):
+            if by_sk[k] and len(picked) < nval:
+                picked.append(by_sk[k].pop(len(by_sk[k]) // 2))
+    validated, val_disagree = 0, []
+    for w in picked:
+        sk = sks[w["sk"]]
+        tag = hashlib.sha256(json.dumps([sk.get("id"), "witness", w["model"]], sort_keys=True, default=repr)
+                             .encode()).hexdigest()[:12]
+        outdir = os.path.join(REPLAYS, pid, "val-" + tag)
+        res = replay_native(hname, sk, w["model"], outdir)
+        if res.get("status") != "ok" or res.get("assume_failed"):
+            continue
+        validated += 1
+        if res.get("failures"):
+            f0 = res["failures"][0]
+            sig = h.signature(f0["label"], sk, f0.get("detail")) if hasattr(h, "signature") else f"{pid}/{f0['label']}"
+            hit = next((k for k in known if k.get("status") == "open" and fnmatch.fnmatch(sig, k["signature"])), None)
+            val_disagree.append({"skeleton": sk.get("id"), "label": f0["label"], "replay": outdir})
+            if hit:
+                known_hits.setdefault(hit["signature"], (hit, outdir))
+            elif not any(v["signature"] == sig for v in violations):
+                violations.append({"label": f0["label"], "signature": sig, "replay": outdir, "skeleton": sk.get("id"),
+                                   "model": w["model"], "detail": f0.get("detail"), "native": [f0],
+                                   "found_by": "native validation of a witness the model had accepted"})
+        else:
+            import shutil
+            shutil.rmtree(outdir, ignore_errors=True)
+
     decided = total.discharged + total.refuted
     wall = time.time() - t0
     files = sorted({f for f, _ in agg["functions"]})
@@ -475,6 +525,11 @@ def run_check(hname, tier, jobs=None, budget_s=None):
             "solver_s": round(total.solver_s, 2), "max_path_depth": total.max_depth,
             "paths_aborted_infeasible_assumption": total.aborted, "paths_inconclusive_unsupported": total.unsupported,
             "paths_raised": total.raised, "paths_using_tie_order_choice": agg["tie_paths"],
+            "traces_validated_against_impl": validated,
+            "validation_rule": "witness inputs (solver models with distinct positive times where possible) of paths whose "
+                               "obligations were all discharged, replayed through the real code with real pandas; all "
+                               "obligations must hold natively too",
+            "validation_disagreements": val_disagree,
             "bounds": getattr(h, "BOUNDS", {}).get(tier, ""),
             "functions_encoded": sorted({q for _, q in agg["functions"]}),
             "source_files": {f: file_sha(f) for f in files if os.path.exists(f)},
